@@ -327,7 +327,10 @@ class Env(object):
 
     def _drain(self, p):
         while not p.to_service_user.empty():
-            self.cur['inds'].append(summarize_indication(p.to_service_user.get(False)))
+            item = p.to_service_user.get(False)
+            if getattr(item, 'pdu_type', None) == 1:
+                self.last_rq = item            # (what an acceptor builds its answer from)
+            self.cur['inds'].append(summarize_indication(item))
 
     def _inject(self, p, deviation=False):
         if not deviation:
@@ -383,7 +386,20 @@ class Env(object):
         elif kind == 'tick':
             self.clock.now += ev[1]
         elif kind == 'user':
-            p.from_service_user.put(make_primitive(ev[1]))
+            if ev[1][0] == 'accept_echo':
+                # the way AssociationAcceptor.accept() answers: titles, application context and user information of the request
+                from pynetdicom2 import pdu as P
+                rq = getattr(self, 'last_rq', None)
+                if rq is None:
+                    self.cur['log'].append('no-request-to-answer')
+                    return
+                ac = P.AAssociateAcPDU(called_ae_title=rq.called_ae_title, calling_ae_title=rq.calling_ae_title,
+                                       variable_items=[rq.variable_items[0],
+                                                       P.PresentationContextItemAC(1, 0, P.TransferSyntaxSubItem('1.2.840.10008.1.2')),
+                                                       rq.variable_items[-1]])
+                p.from_service_user.put(ac)
+            else:
+                p.from_service_user.put(make_primitive(ev[1]))
         elif kind == 'kill':
             p.is_killed = True
         elif kind == 'stop':
